@@ -36,6 +36,7 @@ pub static SPEC: Spec = Spec {
         "disk_tail_truncated",
         "steps_compared",
         "replica_scripts",
+        "scripts_with_hostile_requests",
     ],
     rule: "a case = one script (writer history from the C01 generators incl. clears that punch holes / truncate the tail, or a writer+replica replication script) executed under several configurations: backends {instrumented in-memory, real random-access-memory, real random-access-disk in a scratch directory (files read back from disk)} x node cache {off, default options, capacity of 2-3 nodes}; after EVERY step the call result, the full observation (info, has, get of every index) and the bytes of all four store files are compared with the reference configuration (instrumented backend, cache off): across backends results, observations and file bytes must be identical; across cache configurations results and observations must be identical; the five-step interop scenario must reproduce the JS-certified file hashes on every backend; thorough additionally compares per-case trace hashes against separate builds with the cache feature compiled out and with the sparse feature off; distinct = script hash; evaluations = (script, configuration) runs",
     assumptions: &["disk backend runs with its default per-operation sync; punched holes read back as zeros"],
@@ -79,6 +80,9 @@ pub enum Step {
     W(Op),
     R(Plan),
     ReopenReplica,
+    /// an arbitrary (possibly ill-formed) request served by the writer: block (index, nodes),
+    /// hash (index, nodes), seek bytes, upgrade (start, length)
+    Hostile(Option<(u64, u64)>, Option<(u64, u64)>, Option<u64>, Option<(u64, u64)>),
 }
 
 impl Step {
@@ -87,6 +91,7 @@ impl Step {
             Step::W(o) => json!({"w": o.to_json()}),
             Step::R(p) => json!({"r": p.to_json()}),
             Step::ReopenReplica => json!("reopen-replica"),
+            Step::Hostile(b, h, s, u) => json!({"hostile": {"block": b, "hash": h, "seek": s, "upgrade": u}}),
         }
     }
 }
@@ -187,6 +192,23 @@ pub fn run_script_ow(steps: &[Step], key: &SigningKey, wb: &Backend, rb: Option<
                     None => "no-replica".into(),
                 }
             }
+            Step::Hostile(b, h, sk, u) => match w.as_mut() {
+                Some(wc) => {
+                    let r = exec::call(wc.create_proof(
+                        b.map(|(i, n)| RequestBlock { index: i, nodes: n }),
+                        h.map(|(i, n)| RequestBlock { index: i, nodes: n }),
+                        sk.map(|x| RequestSeek { bytes: x }),
+                        u.map(|(s0, l)| RequestUpgrade { start: s0, length: l }),
+                    ));
+                    match r {
+                        Ok(Ok(Some(p))) => format!("hostile proof#{:x}", crate::rng::fnv(format!("{p:?}").as_bytes())),
+                        Ok(Ok(None)) => "hostile None".to_string(),
+                        Ok(Err(e)) => format!("hostile Err({})", ops::err_sig(&e)),
+                        Err(pn) => format!("hostile panic({})", exec::panic_sig(&pn)),
+                    }
+                }
+                None => "no-core".into(),
+            },
             Step::R(plan) => match (w.as_mut(), rp.as_mut()) {
                 (Some(wc), Some(rc)) => {
                     let len = rc.info().length;
@@ -284,9 +306,46 @@ fn scratch_dir(tag: &str) -> PathBuf {
     out_dir().join("scratch").join(format!("c14-{}-{}", std::process::id(), tag))
 }
 
+/// A request with fields around the interesting boundaries (also ill-formed ones): whatever the
+/// answer is, it must not depend on the configuration.
+pub fn hostile_step(r: &mut Rng, len: u64, bytes: u64) -> Step {
+    let pick = |r: &mut Rng, l: u64| -> u64 {
+        match r.below(5) {
+            0 => l,
+            1 => l.saturating_sub(1),
+            2 => l + 1,
+            _ => r.below(l + 2),
+        }
+    };
+    let b = if r.chance(1, 2) { Some((pick(r, len), r.below(4))) } else { None };
+    let h = if b.is_none() && r.chance(1, 2) { Some((pick(r, 2 * len), r.below(4))) } else { None };
+    let s = if r.chance(1, 2) { Some(pick(r, bytes)) } else { None };
+    let u = if r.chance(1, 2) { Some((pick(r, len), pick(r, len))) } else { None };
+    Step::Hostile(b, h, s, u)
+}
+
 pub fn writer_script(r: &mut Rng, ops: Vec<Op>) -> Vec<Step> {
-    let _ = r;
-    ops.into_iter().map(Step::W).collect()
+    // after reads / appends the writer is also asked for proofs (well- and ill-formed requests)
+    let mut steps = vec![];
+    let (mut len, mut bytes) = (0u64, 0u64);
+    for op in ops {
+        match &op {
+            Op::Append(_, l) => {
+                len += 1;
+                bytes += *l as u64;
+            }
+            Op::Batch(b) => {
+                len += b.len() as u64;
+                bytes += b.iter().map(|x| x.1 as u64).sum::<u64>();
+            }
+            _ => {}
+        }
+        steps.push(Step::W(op));
+        if len > 0 && r.chance(1, 4) {
+            steps.push(hostile_step(r, len, bytes));
+        }
+    }
+    steps
 }
 
 /// Generate a replication script against the model (plans depend only on the models).
@@ -335,6 +394,9 @@ pub fn replica_script(r: &mut Rng) -> Vec<Step> {
             if r.chance(1, 6) {
                 steps.push(Step::ReopenReplica);
             }
+            if r.chance(1, 3) {
+                steps.push(hostile_step(r, wm.length(), wm.byte_length()));
+            }
         }
     }
     steps
@@ -343,6 +405,9 @@ pub fn replica_script(r: &mut Rng) -> Vec<Step> {
 fn run_configs(ctx: &mut Ctx, steps: &[Step], key_seed: u64, with_disk: bool, tag: &str) {
     let key = ops::key_from_seed(key_seed);
     let has_replica = steps.iter().any(|s| matches!(s, Step::R(_) | Step::ReopenReplica));
+    if steps.iter().any(|s| matches!(s, Step::Hostile(..))) {
+        ctx.count("scripts_with_hostile_requests");
+    }
     let mk = |kind: u8, which: &str| -> Backend {
         match kind {
             0 => Backend::new_world(),
